@@ -78,20 +78,33 @@ Qed.
 Theorem c08_exec_eof_resolves : forall cf labs gls, in_fragment cf labs gls ->
   let xf := fst (xrun (xinit cf) labs) in
   let segs := snd (xrun (xinit cf) labs) in
-  let x' := snd (fst (apply_label_g xf (b "e"))) in
   exists g', snd (apply_label_g xf (b "e")) = Some g' /\
-    quiet x' /\ x_callers x' = [] /\
-    map fst (flat_map g_res segs ++ g_res g') = map q_id (flat_map issued_of gls) /\
-    g_panic g' = false.
+             all_resolved gls segs (snd (fst (apply_label_g xf (b "e")))) g'.
 Proof. exact exec_eof_resolves. Qed.
+
+(* the same when, instead, every read of the transport starts to fail (label "r") *)
+Theorem c08_exec_rerr_resolves : forall cf labs gls, in_fragment cf labs gls ->
+  let xf := fst (xrun (xinit cf) labs) in
+  let segs := snd (xrun (xinit cf) labs) in
+  exists g', snd (apply_label_g xf (b "r")) = Some g' /\
+             all_resolved gls segs (snd (fst (apply_label_g xf (b "r")))) g'.
+Proof. exact exec_rerr_resolves. Qed.
+
+(* [all_resolved] spelled out *)
+Theorem c08_all_resolved_means : forall gls segs x' g', all_resolved gls segs x' g' <->
+  (x_pt x' = PExited \/ (x_pt x' = PWindow /\ x_queue x' = [])) /\
+  x_callers x' = [] /\
+  map fst (flat_map g_res segs ++ g_res g') = map q_id (flat_map issued_of gls) /\
+  g_panic g' = false.
+Proof. intros; reflexivity. Qed.
 
 (* the draining phase by itself, from ANY state satisfying its invariant (stream ended; what is
    buffered is a prefix of well-formed responses): each resumption strictly decreases a measure and
    keeps "resolved ++ still waiting" constant *)
-Theorem c08_exec_drain_step : forall x rs g, DInv x rs ->
+Theorem c08_exec_drain_step : forall cf x rs g, DInv cf x rs ->
   match xstep x g with
   | None => quiet x
-  | Some (x', g') => dpost x rs g x' g'
+  | Some (x', g') => dpost cf x rs g x' g'
   end.
 Proof. exact drain_step. Qed.
 
@@ -102,4 +115,5 @@ Print Assumptions c08_always_a_step.
 Print Assumptions c08_dead_transport_resolves_all.
 Print Assumptions c08_queue_taken_in_order.
 Print Assumptions c08_exec_eof_resolves.
+Print Assumptions c08_exec_rerr_resolves.
 Print Assumptions c08_exec_drain_step.
